@@ -14,5 +14,5 @@ CONSTANTS
   InitRate = 6000
   F6Quirk = FALSE
   F7Quirk = FALSE
-INVARIANTS ErrAgree ConformCounters ConformNet ConformChains ConformLogs ReloadOpens ConformShadowCounters ConformShadowChains ConformShadowLogs ConformFwd AtMostOneTx ConformStatic ExactConservation ConformTxLayer OraclesHold NeverBroadcastRevoked Conservation NextPointRule ReestPointRule
+INVARIANTS ErrAgree ConformCounters ConformNet ConformChains ConformLogs ReloadOpens ConformShadowCounters ConformShadowChains ConformShadowLogs ConformFwd AtMostOneTx ConformStatic ExactConservation ConformTxLayer OraclesHold NeverBroadcastRevoked Conservation NextPointRule ReestPointRule ConformMods ConformShadowMods
 CHECK_DEADLOCK TRUE
